@@ -2,7 +2,7 @@
 import json, os, random
 from . import common, gen, oracles
 from .gen import wchoice
-from . import fals_basic, fals_models, fals_analyses, fals_poisson
+from . import fals_basic, fals_models, fals_analyses, fals_poisson, fals_ros
 
 PROPS = {}
 
@@ -182,6 +182,37 @@ register(
     falsifier=fals_analyses.falsify_C18,
     partial=["FIFO: proved (in EVERY legal FIFO schedule of the critical-instant job set some job has response time exactly the bound; a legal schedule exists; sporadic/periodic tasks are realisable). Fully preemptive and fully non-preemptive FP: stated (FpPreemptiveTight) and explored by simulation of the critical-instant schedule, not proved; auto-extrapolating curves: realisability not proved"],
     explanation="tightness of the FIFO bound as a theorem over all legal schedules plus existence of a schedule (greedy scheduler construction); FP tightness by witness search.",
+)
+
+
+def _with_oracle_validation(f):
+    """run the executor-oracle cross-check (Python model vs Lean Spec) before the falsifier"""
+    def g(ctx):
+        bad = fals_ros.validate_executor_oracle(random.Random(ctx["seed"] * 31 + 4), 400 if ctx["tier"] == "quick" else 20000)
+        r = f(ctx)
+        r["rule"] += "; the executor model was cross-checked against the Lean transition system (driver op exec) on random scenarios first"
+        for b in bad[:5]:
+            r["counterexamples"].append({"kind": "executor_oracle_vs_spec", "op": b["op"], "impl": b["oracle"], "spec": b["spec"]})
+        return r
+    return g
+
+
+register(
+    "C04",
+    level="proof",
+    streams=["ros_e19", "supply", "fixed_point", "steps"],
+    falsifier=_with_oracle_validation(fals_ros.falsify_C04),
+    partial=["event-source analysis: PROVED safe for every periodic / deadline-constrained reservation, every compliant budget placement and every FIFO schedule; timer, polling-point callback and processing chain: stated over the executor transition system (TimerSafe) and explored by executing the executor model, not proved"],
+    explanation="FIFO busy-window proof on an arbitrary supply process whose service in every window is bounded below by the supply-bound function (C09 soundness) composed with the meaning of Ok(R) (C07 event source = naive); executor model specified in Lean and executed by the falsifier.",
+)
+
+register(
+    "C05",
+    level="proof",
+    streams=["ros_rr", "ros_bw", "supply", "steps"],
+    falsifier=_with_oracle_validation(fals_ros.falsify_C05),
+    partial=["the schedule-level claim (RrSafe and its bw analogue) is stated over the executor transition system and explored, NOT proved; proved are the analysis-side facts: rr and bw equal naive all-offset linear-scan evaluation, the relevant-step enumeration equals brute force"],
+    explanation="analysis-side theorems (C07) + exploration of the executor model with self-consistent bound vectors obtained by iterating the real analyses.",
 )
 
 
